@@ -34,7 +34,7 @@ class _Unk:
 UNK = _Unk()
 NS = types.SimpleNamespace
 _BUILTINS = {'tuple': tuple, 'type': type, 'len': len, 'chr': chr, 'ord': ord, 'set': set, 'list': list, 'dict': dict,
-             'str': str, 'int': int, 'bool': bool, 'range': range, 'max': max, 'min': min, 'sorted': sorted,
+             'str': str, 'int': int, 'bool': bool, 'float': float, 'range': range, 'max': max, 'min': min, 'sorted': sorted,
              'True': True, 'False': False, 'None': None, 'isinstance': isinstance, 'repr': repr}
 _CMP = {ast.Eq: lambda a, b: a == b, ast.NotEq: lambda a, b: a != b, ast.Lt: lambda a, b: a < b, ast.LtE: lambda a, b: a <= b,
         ast.Gt: lambda a, b: a > b, ast.GtE: lambda a, b: a >= b, ast.Is: lambda a, b: a is b, ast.IsNot: lambda a, b: a is not b,
@@ -49,11 +49,11 @@ class Mini:
     """Forking evaluator.  An environment is a dict name -> python value | UNK; '__ev__' holds the tuple of recorded
     events: ('store', target text, value), ('del', text), ('call', func text), ('loop', text)."""
 
-    def __init__(self, frozen=(), on_loop=None, pure_calls=()):
+    def __init__(self, frozen=(), on_loop=None, ctors=(), stubs=None):
         self.frozen = set(frozen)         # names whose assignments are ignored (driven by the test environment)
         self.on_loop = on_loop            # callback(loop node, env) -> list of envs after the loop, or None = havoc
-        self.pure_calls = set(pure_calls)
-        self.forks = 0
+        self.ctors = set(ctors)           # calls to these names build the symbolic term (name, arg, ...)
+        self.stubs = stubs or {}          # function/method name -> checker-owned stand-in (models the environment, e.g. file times)
 
     # ------------------------------------------------------------------ expressions
     def ev(self, n, env):
@@ -87,12 +87,10 @@ class Mini:
                 except Unknown as e:
                     unknown = e
                     continue
-                if unknown is None and bool(last) != is_and:
-                    return last                      # short circuit with everything before it known
-                if unknown is not None and bool(last) != is_and:
-                    # a later operand decides the truth value, but an earlier unknown one could have decided first:
-                    # the truth value is still determined (False for and / True for or) only as a boolean
-                    return last if not is_and and False else (False if is_and else True)
+                if bool(last) != is_and:
+                    # short circuit.  With an unknown operand before it the exact value is not determined, but its
+                    # truth value is (falsy for `and`, truthy for `or`).
+                    return last if unknown is None else (not is_and)
             if unknown is not None:
                 raise unknown
             return last
@@ -143,7 +141,17 @@ class Mini:
                 return v
             raise Unknown(node_src(n))
         if isinstance(n, ast.Call):
-            if isinstance(n.func, ast.Name) and n.func.id in ('type', 'len', 'chr', 'ord', 'isinstance', 'tuple', 'set', 'bool', 'int') \
+            fname = n.func.attr if isinstance(n.func, ast.Attribute) else n.func.id if isinstance(n.func, ast.Name) else None
+            if fname in self.stubs and not n.keywords:
+                v = self.stubs[fname](*[self._value(a, env) for a in n.args])
+                if v is UNK:
+                    raise Unknown(node_src(n))
+                return v
+            if isinstance(n.func, ast.Name) and n.func.id in self.ctors and not n.keywords:
+                return (n.func.id,) + tuple(self.ev(a, env) for a in n.args)
+            if isinstance(n.func, ast.Name) and n.func.id == 'enumerate' and len(n.args) == 1 and 'enumerate' not in env:
+                return list(enumerate(self.ev(n.args[0], env)))
+            if isinstance(n.func, ast.Name) and n.func.id in ('type', 'len', 'chr', 'ord', 'isinstance', 'tuple', 'set', 'bool', 'int', 'float', 'range') \
                     and n.func.id not in env and not n.keywords:
                 args = [self.ev(a, env) for a in n.args]
                 try:
@@ -289,6 +297,13 @@ class Mini:
         if isinstance(s, ast.Delete):
             for t in s.targets:
                 self._event(env, 'del', node_src(t))
+                if isinstance(t, ast.Subscript) and not isinstance(t.slice, ast.Slice):
+                    try:
+                        base = self.ev(t.value, env)
+                        if isinstance(base, dict):
+                            base.pop(self.ev(t.slice, env), None)
+                    except Unknown:
+                        pass
             return [(env, None)]
         if isinstance(s, ast.Try):
             out = []
@@ -342,8 +357,30 @@ class Mini:
                         nxt.append((e2, sig2))
                 cur = nxt
             return [(e, None if sig == 'break' else sig) for e, sig in cur]
-        self._havoc(s, env)
-        return [(env, None)]
+        cur, done = [(env, None)], []
+        for _ in range(64):
+            nxt = []
+            for e, sig in cur:
+                try:
+                    t = bool(self.ev(s.test, e))
+                except Unknown:
+                    self._havoc(s, e)
+                    done.append((e, None))
+                    continue
+                if not t:
+                    done.append((e, None))
+                    continue
+                for e2, sig2 in self.block(s.body, e):
+                    if sig2 == 'break':
+                        done.append((e2, None))
+                    elif sig2 in (None, 'continue'):
+                        nxt.append((e2, None))
+                    else:
+                        done.append((e2, sig2))
+            cur = nxt
+            if not cur:
+                return done
+        raise Unmodelled('while loop does not terminate within the bound')
 
 
 def events(env, kind=None):
@@ -449,3 +486,1411 @@ def arg_at(call, fn, pname, bound=True):
     if pname in ps and ps.index(pname) < len(call.args):
         return call.args[ps.index(pname)]
     return None
+
+
+def _agree(outs, what):
+    """all forked outcomes must agree on `what(env, sig)`; -> that value"""
+    vals = []
+    for e, sig in outs:
+        v = what(e, sig)
+        if v not in vals:
+            vals.append(v)
+    if len(vals) != 1:
+        raise Unmodelled('outcome not determined: %r' % (vals[:4],))
+    return vals[0]
+
+
+def _model(fn_desc, thunk):
+    try:
+        return thunk()
+    except Unmodelled as e:
+        raise AnalysisError('%s: cannot be modelled by the guard evaluator (%s)' % (fn_desc, e))
+
+
+# ====================================================================================== R1 sentinel
+def rule_sentinel(px):
+    r = Rule('C50-SENT', 'the range sentinel maxint is one value in Regexps/Machines/Transitions, exceeds every character code, fits its C '
+             'declaration; LOWEST_PRIORITY lies below every priority; TransitionMap starts as [-maxint, {}, +maxint]; '
+             'FastMachine.add_transitions maps (-maxint, x) to the else slot, skips (x, +maxint) and enumerates finite ranges', floor=11)
+    vals = {}
+    for mod in ('Regexps', 'Machines', 'Transitions'):
+        v = px.const(mod, 'maxint')
+        if not isinstance(v, int):
+            raise AnalysisError('sentinel maxint is not a resolvable integer constant in %s' % mod)
+        vals[mod] = v
+    ref = vals['Transitions']
+    for mod, v in vals.items():
+        r.inst('maxint:' + mod, sample='%s.maxint = %d' % (mod, v))
+        if v != ref:
+            r.violate('maxint:' + mod, px.rel(mod), px.const_node(mod, 'maxint')[1].lineno,
+                      '%s.maxint is %d but Transitions.maxint (the end marker of every TransitionMap) is %d: open-ended ranges built '
+                      'with one value are not recognised as open-ended by the other module (AnyBut/AnyChar match the wrong characters)' % (mod, v, ref))
+    r.inst('maxint:above-unicode', sample='maxint > 0x110000')
+    if ref <= 0x110000:
+        r.violate('maxint:above-unicode', px.rel('Transitions'), 1,
+                  'maxint = %d does not exceed the largest exclusive character-range end 0x110000: real ranges collide with the sentinel' % ref)
+    # C declarations in the .pxd files (compiled Plex): the value must fit the declared type on every platform
+    import re as _re
+    for mod in ('Machines', 'Transitions'):
+        try:
+            pxd = px.ctx.read(PLEX + mod + '.pxd')
+        except AnalysisError:
+            continue
+        m = _re.search(r'^\s*cdef\s+([\w ]+?)\s+maxint\b', pxd, _re.M)
+        if m:
+            ctype = ' '.join(m.group(1).split())
+            r.inst('maxint:pxd:' + mod, sample='%s.pxd: cdef %s maxint' % (mod, ctype))
+            if ctype in ('int', 'long', 'signed int', 'signed long') and not (-2 ** 31 <= -vals[mod] and vals[mod] <= 2 ** 31 - 1):
+                r.violate('maxint:pxd:' + mod, PLEX + mod + '.pxd', pxd[:m.start()].count('\n') + 1,
+                          '%s.maxint = %d does not fit `cdef %s maxint` (32 bit on some platforms): the compiled module wraps the sentinel' % (mod, vals[mod], ctype))
+    # LOWEST_PRIORITY
+    low = px.const('Machines', 'LOWEST_PRIORITY')
+    if not isinstance(low, int):
+        raise AnalysisError('Machines.LOWEST_PRIORITY is not a resolvable integer constant')
+    r.inst('LOWEST_PRIORITY', sample='LOWEST_PRIORITY = %d' % low)
+    if low > -vals['Machines']:
+        r.violate('LOWEST_PRIORITY', px.rel('Machines'), px.const_node('Machines', 'LOWEST_PRIORITY')[1].lineno,
+                  'LOWEST_PRIORITY = %d is not below every token priority (priorities are negated token numbers down to %d): '
+                  'late tokens can never become the action of a state' % (low, -vals['Machines']))
+    dlow = px.const('DFA', 'LOWEST_PRIORITY')
+    r.inst('LOWEST_PRIORITY:DFA', sample='DFA sees LOWEST_PRIORITY = %r' % (dlow,))
+    if dlow != low:
+        r.violate('LOWEST_PRIORITY:DFA', px.rel('DFA'), 1, 'DFA.LOWEST_PRIORITY (%r) differs from Machines.LOWEST_PRIORITY (%r), the initial priority of every Node' % (dlow, low))
+    # TransitionMap initial map
+    init = px.method('Transitions', 'TransitionMap', '__init__')
+    cands = [n for n in walk_no_nested(init) if isinstance(n, ast.List) and len(n.elts) == 3]
+    if not cands:
+        raise AnalysisError('TransitionMap.__init__: initial [code, set, code] list not found')
+    for n in cands:
+        a, b = px.eval_const('Transitions', n.elts[0]), px.eval_const('Transitions', n.elts[2])
+        r.inst('TransitionMap.__init__:initial-map', sample=node_src(n))
+        mid = n.elts[1]
+        empty = (isinstance(mid, ast.Call) and isinstance(mid.func, ast.Name) and mid.func.id in ('set', 'frozenset') and not mid.args) or \
+                (isinstance(mid, ast.Set) and not mid.elts)
+        if a != -ref or b != ref or not empty:
+            r.violate('TransitionMap.__init__:initial-map', px.rel('Transitions'), n.lineno,
+                      'a new TransitionMap must be [-maxint, empty set, +maxint] (one empty range covering every code); found %s: '
+                      'split() can no longer locate codes outside it and the first/last ranges are not the open-ended ones' % node_src(n))
+    # split: comparisons of the code against the sentinel
+    split = px.method('Transitions', 'TransitionMap', 'split')
+    code = params(split)[1]
+    for n in walk_no_nested(split):
+        if isinstance(n, ast.Compare) and isinstance(n.left, ast.Name) and n.left.id == code and len(n.ops) == 1:
+            v = px.eval_const('Transitions', n.comparators[0])
+            if isinstance(v, int) and abs(v) == ref:
+                r.inst('TransitionMap.split:sentinel-test', sample=node_src(n))
+                if not (isinstance(n.ops[0], ast.Eq) and v == ref):
+                    r.violate('TransitionMap.split:sentinel-test', px.rel('Transitions'), n.lineno,
+                              'split() special-cases `%s`; only code == +maxint is the existing last split point (index len(map)-1)' % node_src(n))
+    # FastMachine.add_transitions, evaluated on five events
+    fn = px.method('Machines', 'FastMachine', 'add_transitions')
+    ps = params(fn)
+    if len(ps) < 4:
+        raise AnalysisError('FastMachine.add_transitions: unexpected signature')
+    st, evp, tgt = ps[1], ps[2], ps[3]
+    base = px.env_consts('Machines', fn)
+    for a, d in zip(fn.args.args[len(fn.args.args) - len(fn.args.defaults):], fn.args.defaults):
+        v = px.eval_const('Machines', d)
+        if v is not None:
+            base[a.arg] = v
+    M = vals['Machines']
+
+    def run(fn, event):
+        env = dict(base)
+        env.update({st: {}, evp: event, tgt: 'T', 'self': NS()})
+        outs = Mini().block(fn.body, env)
+        return _agree(outs, lambda e, sig: (tuple(sorted(e[st].items())), bool(events(e, 'loop'))))
+    cases = [((-M, 100), {'else': 'T'}, 'a range open at the low end must become the else transition'),
+             ((100, M), None, 'a range open at the high end is covered by the else slot and must not be enumerated'),
+             ((100, 103), {'d': 'T', 'e': 'T', 'f': 'T'}, 'a finite range must give one entry per character code0 <= c < code1'),
+             ((-M, M), {'else': 'T'}, 'the full range must become the else transition'),
+             ('bol', {'bol': 'T'}, 'a special event must be stored under its own key')]
+
+    def check(fn):
+        bad = []
+        for event, want, why in cases:
+            got, looped = run(fn, event)
+            got = dict(got)
+            ok = (got in ({}, {'else': 'T'}) if want is None else got == want) and not looped
+            if not ok:
+                bad.append((event, got, looped, why))
+        return bad
+    bad = _model('FastMachine.add_transitions', lambda: check(fn))
+    for event, want, why in cases:
+        r.inst('FastMachine.add_transitions:%r' % (event,), sample='add_transitions(state, %r, T)' % (event,))
+    for event, got, looped, why in bad:
+        r.violate('FastMachine.add_transitions:%s' % ('special' if isinstance(event, str) else ('%s..%s' % tuple('-inf' if c == -M else 'inf' if c == M else 'c' for c in event))),
+                  px.rel('Machines'), fn.lineno,
+                  'add_transitions(state, %r, T) gives %r%s: %s' % (event, got, ' and enumerates an open-ended range' if looped else '', why))
+    pc = ast.parse("def add_transitions(self, state, event, new_state, maxint=%d):\n    if type(event) is tuple:\n        code0, code1 = event\n"
+                   "        if code0 == maxint:\n            state['else'] = new_state\n        elif code1 != maxint:\n"
+                   "            for code in range(code0, code1):\n                state[chr(code)] = new_state\n    else:\n        state[event] = new_state\n" % M).body[0]
+    r.positive_control(bool(check(pc)), 'else slot keyed on +maxint')
+    return r
+
+
+# ====================================================================================== R2 special symbols / state keys
+def _template(px):
+    init = px.method('Machines', 'FastMachine', '__init__')
+    for n in walk_no_nested(init):
+        if isinstance(n, ast.Assign) and any(is_self_attr(t) and t.attr == 'new_state_template' for t in n.targets) and isinstance(n.value, ast.Dict):
+            out = {}
+            for k, v in zip(n.value.keys, n.value.values):
+                kv = px.eval_const('Machines', k) if k is not None else None
+                if not isinstance(kv, str):
+                    raise AnalysisError('FastMachine.new_state_template: key %s is not a resolvable string' % node_src(k))
+                out[kv] = v
+            return n, out
+    raise AnalysisError('FastMachine.new_state_template dict literal not found')
+
+
+def rule_symbols(px):
+    r = Rule('C50-SYM', 'BOL/EOL/EOF are distinct multi-character strings, pre-set to None in FastMachine.new_state_template (so they never take the '
+             'else transition), every constant the Scanner feeds as cur_char is a character, \'\' or one of them; every constant key the scan '
+             'loop reads from a state dict is written by FastMachine', floor=12)
+    syms = {}
+    for n in ('BOL', 'EOL', 'EOF'):
+        v = px.const('Regexps', n)
+        if not isinstance(v, str):
+            raise AnalysisError('Regexps.%s is not a resolvable string constant' % n)
+        syms[n] = v
+    tnode, tmpl = _template(px)
+    for n, v in syms.items():
+        line = px.const_node('Regexps', n)[1].lineno
+        r.inst('symbol:' + n, sample='%s = %r' % (n, v))
+        if len(v) < 2:
+            r.violate('symbol:' + n, px.rel('Regexps'), line,
+                      'Regexps.%s = %r must be a string of length >= 2: Char() and FastMachine treat length-1 events as characters and \'\' as epsilon' % (n, v))
+        if sum(1 for w in syms.values() if w == v) > 1:
+            r.violate('symbol:%s:distinct' % n, px.rel('Regexps'), line, 'Regexps.%s = %r is not distinct from the other special symbols' % (n, v))
+        r.inst('template:' + n, sample='new_state_template has %r: %s' % (v, v in tmpl))
+        if v not in tmpl:
+            r.violate('template:' + n, px.rel('Machines'), tnode.lineno,
+                      'FastMachine.new_state_template has no entry %r (Regexps.%s): a state without a %s transition sends the pseudo-character to its '
+                      '`else` transition, so AnyBut/AnyChar consume a %s marker as if it were a character' % (v, n, n, n))
+        elif not (isinstance(tmpl[v], ast.Constant) and tmpl[v].value is None):
+            r.violate('template:' + n, px.rel('Machines'), tnode.lineno,
+                      'new_state_template[%r] must be None (blocked), found %s' % (v, node_src(tmpl[v])))
+    # constants fed as cur_char by the Scanner
+    sc = px.cls('Scanners', 'Scanner')
+    fed = {}
+    for fn in sc.body:
+        if not isinstance(fn, ast.FunctionDef):
+            continue
+        for n in walk_no_nested(fn):
+            if not isinstance(n, ast.Assign):
+                continue
+            for t in n.targets:
+                if (isinstance(t, ast.Name) and t.id == 'cur_char') or (is_self_attr(t) and t.attr == 'cur_char'):
+                    v = n.value
+                    val = v.value if isinstance(v, ast.Constant) else px.const('Scanners', v.id) if isinstance(v, ast.Name) else None
+                    if isinstance(val, str):
+                        key = 'Scanner.%s:cur_char=%s' % (fn.name, node_src(v))
+                        r.inst(key, sample=key + ' (%r)' % val)
+                        fed.setdefault(val, []).append(n.lineno)
+                        if len(val) > 1 and val not in tmpl:
+                            r.violate(key, px.rel('Scanners'), n.lineno,
+                                      'the scanner feeds the pseudo-character %r, which is neither a character nor a key of FastMachine.new_state_template '
+                                      '%r: it falls through to the `else` transition of every state' % (val, sorted(tmpl)))
+    for n, v in syms.items():
+        r.inst('fed:' + n, sample='%s fed by the scanner at lines %s' % (n, fed.get(v)))
+        if v not in fed:
+            r.violate('fed:' + n, px.rel('Scanners'), sc.lineno,
+                      'the Scanner never sets cur_char to %s (%r): the regular expression %s can never match' % (n, v, n.capitalize()))
+    # state-dict keys: read side (scan loop) subset of write side (FastMachine)
+    fm = px.cls('Machines', 'FastMachine')
+    written = set(tmpl)
+    for fn in fm.body:
+        if isinstance(fn, ast.FunctionDef) and fn.name in ('__init__', 'new_state', 'add_transitions'):
+            for n in walk_no_nested(fn):
+                if isinstance(n, ast.Subscript) and isinstance(n.ctx, ast.Store) and isinstance(n.slice, ast.Constant) and isinstance(n.slice.value, str):
+                    written.add(n.slice.value)
+    run = px.method('Scanners', 'Scanner', 'run_machine_inlined')
+    nread = 0
+
+    def read_keys(fn):
+        for n in walk_no_nested(fn):
+            if isinstance(n, ast.Subscript) and isinstance(n.ctx, ast.Load) and isinstance(n.slice, ast.Constant) and isinstance(n.slice.value, str) \
+                    and isinstance(n.value, ast.Name):
+                yield n, n.slice.value
+            elif isinstance(n, ast.Call) and isinstance(n.func, ast.Attribute) and n.func.attr == 'get' and isinstance(n.func.value, ast.Name) and n.args \
+                    and isinstance(n.args[0], ast.Constant) and isinstance(n.args[0].value, str):
+                yield n, n.args[0].value
+    pc = ast.parse("def f(self):\n    new_state = state.get(c, NOT_FOUND)\n    if new_state is NOT_FOUND:\n        new_state = c and state.get('otherwise')\n").body[0]
+    r.positive_control(any(k not in written for _, k in read_keys(pc)), 'scan loop reading a key FastMachine never writes')
+    for n, key in read_keys(run):
+        nread += 1
+        r.inst('state-key:' + key, sample='scan loop reads %s' % node_src(n))
+        if key not in written:
+            r.violate('state-key:' + key, px.rel('Scanners'), n.lineno,
+                      'run_machine_inlined reads state key %r (%s) but FastMachine only writes %r: the lookup always misses' % (key, node_src(n), sorted(written)))
+    if nread < 2:
+        raise AnalysisError('run_machine_inlined: constant state-dict keys not found')
+    return r
+
+
+# ====================================================================================== R3 priorities: the earliest rule wins
+def _method_calls(fn, attr):
+    return sorted([n for n in walk_no_nested(fn) if isinstance(n, ast.Call) and isinstance(n.func, ast.Attribute) and n.func.attr == attr],
+                  key=lambda n: (n.lineno, n.col_offset))
+
+
+def _prio_chain(px, add_tok, set_action, node_init, hpa, low):
+    """Evaluate the priority pipeline for tokens 1, 2, 3.  -> list of (construct suffix, function name, message)"""
+    problems = []
+    calls = _method_calls(add_tok, 'set_action')
+    if not calls:
+        raise AnalysisError('Lexicon.add_token_to_machine no longer calls set_action')
+    sa_params = params(set_action)
+    if len(sa_params) < 3:
+        raise AnalysisError('Node.set_action: unexpected signature')
+    prio_expr = arg_at(calls[0], set_action, sa_params[2])
+    if prio_expr is None:
+        raise AnalysisError('Lexicon.add_token_to_machine: priority argument of set_action not found')
+    tps = [p for p in params(add_tok) if any(isinstance(x, ast.Name) and x.id == p for x in ast.walk(prio_expr))]
+    if not tps:
+        problems.append(('priority-expr', 'add_token_to_machine',
+                         'set_action is given the priority %s, which does not depend on the token number: all rules tie and the winner depends on set iteration order' % node_src(prio_expr)))
+        return problems, None
+    tp = tps[0]
+    m = Mini()
+    try:
+        prio = {k: m.ev(prio_expr, {tp: k}) for k in (1, 2, 3)}
+    except Unknown as e:
+        raise Unmodelled('priority expression %s (%s)' % (node_src(prio_expr), e))
+    # a fresh Node
+    node0 = {}
+    for n in walk_no_nested(node_init):
+        if isinstance(n, ast.Assign):
+            for t in n.targets:
+                if is_self_attr(t) and t.attr in ('action', 'action_priority'):
+                    v = px.eval_const('Machines', n.value) if not (isinstance(n.value, ast.Constant) and n.value.value is None) else None
+                    node0[t.attr] = v
+    if set(node0) != {'action', 'action_priority'}:
+        raise AnalysisError('Node.__init__ does not initialise action/action_priority with constants')
+    if node0['action_priority'] != low:
+        problems.append(('node-init', 'Node.__init__', 'a new Node starts with action_priority %r instead of LOWEST_PRIORITY (%r)' % (node0['action_priority'], low)))
+    nodes = {}
+    for k in (1, 2, 3):
+        nd = NS(**node0)
+        outs = Mini().block(set_action.body, {sa_params[0]: nd, sa_params[1]: 'A%d' % k, sa_params[2]: prio[k]})
+        got = _agree(outs, lambda e, sig: (e[sa_params[0]].action, e[sa_params[0]].action_priority))
+        if got != ('A%d' % k, prio[k]):
+            problems.append(('set_action:first', 'Node.set_action',
+                             'set_action(%r, priority=%r) on a fresh Node leaves (action, priority) = %r: the final state of token %d does not accept' % ('A%d' % k, prio[k], got, k)))
+        nodes[k] = NS(action='A%d' % k, action_priority=prio[k])
+    # set_action keeps the better of two
+    for first, second in ((1, 2), (2, 1)):
+        nd = NS(action='A%d' % first, action_priority=prio[first])
+        outs = Mini().block(set_action.body, {sa_params[0]: nd, sa_params[1]: 'A%d' % second, sa_params[2]: prio[second]})
+        got = _agree(outs, lambda e, sig: (e[sa_params[0]].action, e[sa_params[0]].action_priority))
+        if got != ('A1', prio[1]):
+            problems.append(('set_action:order', 'Node.set_action',
+                             'a Node holding token %d (priority %r) that is offered token %d (priority %r) ends with %r: token 1, the earlier rule, must win' % (
+                                 first, prio[first], second, prio[second], got)))
+    # highest_priority_action over every order of {no action, token 3, token 1, token 2}
+    import itertools
+    hp = params(hpa)
+    plain = NS(**node0)
+    for perm in itertools.permutations([plain, nodes[3], nodes[1], nodes[2]]):
+        env = px.env_consts('DFA', hpa)
+        env.update({hp[0]: NS(), hp[1]: list(perm)})
+        outs = Mini().block(hpa.body, env)
+        got = _agree(outs, lambda e, sig: sig)
+        if got != ('return', 'A1'):
+            order = [getattr(x, 'action') for x in perm]
+            problems.append(('highest_priority_action', 'StateMap.highest_priority_action',
+                             'for NFA states accepting tokens %r (priorities %r) highest_priority_action yields %r; the DFA state must perform the action of token 1, '
+                             'the earliest rule matching the same text' % (order, [x.action_priority for x in perm], got[1] if isinstance(got, tuple) else got)))
+            break
+    # non-accepting set
+    env = px.env_consts('DFA', hpa)
+    env.update({hp[0]: NS(), hp[1]: [NS(**node0), NS(**node0)]})
+    got = _agree(Mini().block(hpa.body, env), lambda e, sig: sig)
+    if got != ('return', None):
+        problems.append(('highest_priority_action:none', 'StateMap.highest_priority_action', 'a set of non-accepting NFA states yields the action %r instead of None' % (got,)))
+    return problems, prio
+
+
+def rule_priority(px):
+    r = Rule('C50-PRIO', 'rule priority pipeline: Lexicon numbers every token with a fresh, monotonically changing counter; the priority handed to '
+             'set_action, Node.set_action and StateMap.highest_priority_action together make the earliest rule win (evaluated for tokens 1,2,3 in every order)', floor=8)
+    lex_init = px.method('Lexicons', 'Lexicon', '__init__')
+    add_tok = px.method('Lexicons', 'Lexicon', 'add_token_to_machine')
+    set_action = px.method('Machines', 'Node', 'set_action')
+    node_init = px.method('Machines', 'Node', '__init__')
+    hpa = px.method('DFA', 'StateMap', 'highest_priority_action')
+    o2n = px.method('DFA', 'StateMap', 'old_to_new')
+    low = px.const('Machines', 'LOWEST_PRIORITY')
+    where = {'add_token_to_machine': ('Lexicons', add_tok), 'Node.set_action': ('Machines', set_action), 'Node.__init__': ('Machines', node_init),
+             'StateMap.highest_priority_action': ('DFA', hpa)}
+    problems, prio = _model('priority pipeline', lambda: _prio_chain(px, add_tok, set_action, node_init, hpa, low))
+    for k in ('priority-expr', 'node-init', 'set_action:first', 'set_action:order', 'highest_priority_action', 'highest_priority_action:none'):
+        r.inst('chain:' + k, sample='priorities of tokens 1,2,3 = %r' % (prio,))
+    for key, fname, msg in problems:
+        mod, fn = where[fname]
+        r.violate('%s:%s' % (fname, key), px.rel(mod), fn.lineno, msg)
+    # old_to_new: the action of the new state is highest_priority_action(of the same set)
+    ps = params(o2n)
+    calls = _method_calls(o2n, 'highest_priority_action')
+    r.inst('StateMap.old_to_new:action', sample='old_to_new computes the action from %s' % (node_src(calls[0]) if calls else None))
+    ok = False
+    if calls and calls[0].args and isinstance(calls[0].args[0], ast.Name) and calls[0].args[0].id == ps[1]:
+        tgt = [n.targets[0].id for n in walk_no_nested(o2n) if isinstance(n, ast.Assign) and n.value is calls[0] and isinstance(n.targets[0], ast.Name)]
+        for c in _method_calls(o2n, 'new_state'):
+            if any((isinstance(a, ast.Name) and a.id in tgt) or a is calls[0] for a in list(c.args) + [k.value for k in c.keywords]):
+                ok = True
+    if not ok:
+        r.violate('StateMap.old_to_new:action', px.rel('DFA'), o2n.lineno,
+                  'old_to_new does not create the new DFA state with highest_priority_action(%s): accepting DFA states lose or mix up their action' % ps[1])
+    fm_new = px.method('Machines', 'FastMachine', 'new_state')
+    r.inst('FastMachine.new_state:action', sample='new_state stores its action parameter under "action"')
+    ap = params(fm_new)[1] if len(params(fm_new)) > 1 else None
+    if not any(isinstance(n, ast.Assign) and isinstance(n.targets[0], ast.Subscript) and isinstance(n.targets[0].slice, ast.Constant) and
+               n.targets[0].slice.value == 'action' and isinstance(n.value, ast.Name) and n.value.id == ap for n in walk_no_nested(fm_new)):
+        r.violate('FastMachine.new_state:action', px.rel('Machines'), fm_new.lineno, "FastMachine.new_state does not store its action parameter as state['action']")
+
+    # ---- Lexicon.__init__: counter discipline
+    from ..engine import pyflow
+    tparam = None
+    if prio is not None:
+        calls = _method_calls(add_tok, 'set_action')
+        pe = arg_at(calls[0], set_action, params(set_action)[2])
+        tparam = [p for p in params(add_tok) if any(isinstance(x, ast.Name) and x.id == p for x in ast.walk(pe))][0]
+
+    def check_counter(fn, tparam):
+        """-> (problems, number of call sites)"""
+        out = []
+        sites = _method_calls(fn, 'add_token_to_machine')
+        if not sites:
+            raise AnalysisError('Lexicon.__init__ no longer calls add_token_to_machine')
+        counters = set()
+        for c in sites:
+            a = arg_at(c, add_tok, tparam)
+            if not isinstance(a, ast.Name):
+                out.append(('counter-arg', c.lineno, 'add_token_to_machine is given %s as %s instead of the running token counter: rules share one priority' % (
+                    node_src(a) if a is not None else 'nothing', tparam)))
+            else:
+                counters.add(a.id)
+        if len(counters) != 1:
+            if len(counters) > 1:
+                out.append(('counter-arg', sites[0].lineno, 'different counters %s number the tokens: priorities of rules in different states collide' % sorted(counters)))
+            return out, len(sites)
+        cv = counters.pop()
+        steps = []
+
+        def tr(n, state):
+            s = set(state)
+            if isinstance(n, ast.stmt):
+                for c in pyflow.calls_in(n):
+                    if c in sites:
+                        if 'fresh' not in s:
+                            s.add(('STALE', c.lineno))
+                        s.discard('fresh')
+                if isinstance(n, (ast.Assign, ast.AugAssign, ast.AnnAssign)):
+                    tg = n.targets if isinstance(n, ast.Assign) else [n.target]
+                    if any(isinstance(t, ast.Name) and t.id == cv for t in tg):
+                        s.add('fresh')
+                        if n not in steps:
+                            steps.append(n)
+            return frozenset(s)
+        o = pyflow.Flow(tr, correlate=False).run(fn)
+        stale = set()
+        for st in o.normal | o.returns:
+            stale |= {f for f in st if isinstance(f, tuple) and f[0] == 'STALE'}
+        for f in sorted(stale):
+            out.append(('counter-stale', f[1], 'on some path two consecutive add_token_to_machine calls see the same value of %s (no increment in between): '
+                        'the two rules get equal priority and the earlier one no longer wins reliably' % cv))
+        # direction of every step (the initialisation is a step from "unset")
+        dirs = set()
+        for n in steps:
+            if isinstance(n, ast.Assign) and not any(isinstance(x, ast.Name) and x.id == cv for x in ast.walk(n.value)):
+                continue    # initialisation
+            outs = Mini().stmt(n, {cv: 5})
+            v = _agree(outs, lambda e, sig: e[cv])
+            if v is UNK or not isinstance(v, int) or v == 5:
+                out.append(('counter-step', n.lineno, 'the token counter update `%s` does not change the counter by a known non-zero step' % node_src(n)))
+            else:
+                dirs.add(1 if v > 5 else -1)
+        if len(dirs) > 1:
+            out.append(('counter-step', steps[-1].lineno, 'the token counter %s is both incremented and decremented: token numbers repeat' % cv))
+        if len(dirs) == 1 and prio is not None:
+            # later token => counter moves in direction d => its priority must be strictly lower
+            d = dirs.pop()
+            m = Mini()
+            pe = arg_at(_method_calls(add_tok, 'set_action')[0], set_action, params(set_action)[2])
+            p_first, p_later = m.ev(pe, {tparam: 10}), m.ev(pe, {tparam: 10 + d})
+            if not p_later < p_first:
+                out.append(('counter-direction', steps[-1].lineno,
+                            'later rules get counter values moving by %+d, which gives them priority %r against %r for the earlier rule: the LATER rule wins ties' % (d, p_later, p_first)))
+        return out, len(sites)
+    if tparam is not None:
+        probs, nsites = _model('Lexicon.__init__', lambda: check_counter(lex_init, tparam))
+        for i in range(nsites):
+            r.inst('Lexicon.__init__:add_token_to_machine#%d' % i, sample='call site %d passes the running counter' % i)
+        r.inst('Lexicon.__init__:counter-step')
+        for key, line, msg in probs:
+            r.violate('Lexicon.__init__:' + key, px.rel('Lexicons'), line, msg)
+        pc = ast.parse("def __init__(self, specifications):\n    token_number = 1\n    for spec in specifications:\n        if isinstance(spec, State):\n"
+                       "            for token in spec.tokens:\n                self.add_token_to_machine(nfa, s, token, token_number)\n"
+                       "            token_number += 1\n        else:\n            self.add_token_to_machine(nfa, d, spec, token_number)\n            token_number += 1\n").body[0]
+        r.positive_control(any(k == 'counter-stale' for k, _, _ in check_counter(pc, tparam)[0]), 'increment outside the inner loop')
+    return r
+
+
+# ====================================================================================== R4 backup / restore in the scan loop
+def _tuple_assigns(body_owner):
+    out = []
+    for n in ast.walk(body_owner):
+        if isinstance(n, ast.Assign) and len(n.targets) == 1 and isinstance(n.targets[0], ast.Tuple) and isinstance(n.value, ast.Tuple) \
+                and len(n.targets[0].elts) == len(n.value.elts) and all(isinstance(e, ast.Name) for e in n.targets[0].elts):
+            out.append(n)
+    return out
+
+
+def _enclosing_if(root, node):
+    """outermost-to-innermost list of If statements inside root that contain node"""
+    chain = []
+
+    def rec(n, acc):
+        if n is node:
+            chain.extend(acc)
+            return True
+        for ch in ast.iter_child_nodes(n):
+            if rec(ch, acc + [n] if isinstance(n, ast.If) else acc):
+                return True
+        return False
+    rec(root, [])
+    return chain
+
+
+def _describe(v):
+    if isinstance(v, str) and v.startswith('v:'):
+        return 'the saved value of ' + v[2:]
+    if isinstance(v, str) and v.startswith('old:'):
+        return 'the stale content of backup slot ' + v[4:]
+    if isinstance(v, str) and v.startswith('clobbered:'):
+        return 'its over-scanned value'
+    return repr(v)
+
+
+def check_backup(fn):
+    """-> (problems [(key, line, msg)], info dict) for a run_machine_inlined-like function"""
+    loops = [n for n in fn.body if isinstance(n, ast.While)]
+    if not loops:
+        raise AnalysisError('run_machine_inlined: scan loop not found')
+    loop = loops[0]
+    tas = _tuple_assigns(loop)
+    save = restore = None
+    for a in tas:
+        vals = [e.id for e in a.value.elts if isinstance(e, ast.Name)]
+        for b in tas:
+            if b is not a and len(vals) == len(a.value.elts) and set(vals) == {e.id for e in b.targets[0].elts}:
+                restore, save = a, b
+    if save is None:
+        raise AnalysisError('run_machine_inlined: save/restore tuple assignments not found')
+    problems = []
+    s_t = [e.id for e in save.targets[0].elts]
+    r_t = [e.id for e in restore.targets[0].elts]
+    r_v = [e.id for e in restore.value.elts]
+    # semantic round trip: save with distinct values, clobber, restore
+    save_if = (_enclosing_if(loop, save) or [save])[-1]
+    rest_if = (_enclosing_if(loop, restore) or [restore])[-1]
+    env = {}
+    for e in save.value.elts:
+        for x in ast.walk(e):
+            if isinstance(x, ast.Name):
+                env[x.id] = 'v:' + x.id
+    for b in s_t:
+        env.setdefault(b, 'old:' + b)
+    m = Mini()
+    outs = m.block([save_if], dict(env))
+    saved = _agree(outs, lambda e, sig: tuple(sorted((k, v) for k, v in e.items() if k in s_t)))
+    env2 = dict(env)
+    env2.update(dict(saved))
+    for k in r_t:
+        env2[k] = 'clobbered:' + k
+    outs = m.block([rest_if], env2)
+    got = _agree(outs, lambda e, sig: tuple((k, e.get(k)) for k in r_t))
+    for k, v in got:
+        if v != 'v:' + k:
+            problems.append(('restore:' + k, restore.lineno,
+                             'after save-for-backup and back-up the scanner variable %s holds %s instead of its own saved value: the scanner resumes after the '
+                             'longest match with a corrupted input position' % (k, _describe(v))))
+    # without a saved accepting state the result is "no action"
+    act = None
+    for b, v in zip(s_t, save.value.elts):
+        pass
+    # the variable restored from the first saved slot that was saved from the `action` local
+    none_init = [a for a in _tuple_assigns(fn) if a not in (save, restore) and [e.id for e in a.targets[0].elts] == s_t and a.lineno < loop.lineno]
+    info = dict(save=save, restore=restore, loop=loop, saved=s_t, restored=r_t)
+    # which saved slot guards the restore?
+    guard_names = {x.id for x in ast.walk(rest_if.test) if isinstance(x, ast.Name)} if isinstance(rest_if, ast.If) else set()
+    flag = [b for b in s_t if b in guard_names]
+    if not flag:
+        problems.append(('restore:guard', restore.lineno, 'the back-up is not guarded by a test of a saved slot: without any accepting state passed the scanner "restores" the initial dummy values'))
+    else:
+        fb = flag[0]
+        act = r_t[r_v.index(fb)]
+        if not none_init:
+            problems.append(('backup:init', loop.lineno, 'the backup slots are not initialised before the scan loop'))
+        else:
+            iv = none_init[-1].value.elts[s_t.index(fb)]
+            if not (isinstance(iv, ast.Constant) and iv.value is None):
+                problems.append(('backup:init', none_init[-1].lineno, 'the backup slot %s must start as None (no accepting state seen yet), found %s: unmatched input is reported as a match' % (fb, node_src(iv))))
+        env3 = dict(env2)
+        env3[fb] = None
+        outs = m.block([rest_if], env3)
+        got = _agree(outs, lambda e, sig: e.get(act))
+        if got is not None:
+            problems.append(('restore:none', restore.lineno, 'when no accepting state was passed (%s is None) the scan loop must yield action None (unrecognised input), it yields %r' % (fb, got)))
+        # the save must be unconditional on accepting states only: with action None nothing is saved
+        src = save.value.elts[s_t.index(fb)]
+        if isinstance(src, ast.Name):
+            env4 = dict(env)
+            env4[src.id] = None
+            outs = m.block([save_if], env4)
+            kept = _agree(outs, lambda e, sig: tuple(e.get(b) for b in s_t))
+            if kept != tuple(env[b] for b in s_t):
+                problems.append(('save:non-accepting', save.lineno, 'a non-accepting state (action None) overwrites the backup: the longest match seen so far is forgotten'))
+    # deferred write-back of every restored scanner variable that mirrors a self attribute
+    mirrors = {}
+    for n in fn.body:
+        if n is loop:
+            break
+        tgt = val = None
+        if isinstance(n, ast.Assign) and len(n.targets) == 1:
+            tgt, val = n.targets[0], n.value
+        elif isinstance(n, ast.AnnAssign) and n.value is not None:
+            tgt, val = n.target, n.value
+        if isinstance(tgt, ast.Name) and is_self_attr(val):
+            mirrors[tgt.id] = val.attr
+    writes = {}
+    for n in walk_no_nested(fn):
+        if isinstance(n, ast.Assign) and isinstance(n.value, ast.Name):
+            for t in n.targets:
+                if is_self_attr(t):
+                    writes.setdefault(n.value.id, []).append((t.attr, n.lineno))
+    stores_in_loop = {}
+    for n in ast.walk(loop):
+        if isinstance(n, ast.Name) and isinstance(n.ctx, ast.Store):
+            stores_in_loop.setdefault(n.id, []).append(n.lineno)
+    end = max(getattr(n, 'end_lineno', loop.lineno) for n in [loop])
+    info['mirrors'] = mirrors
+    for v in r_t:
+        if v in mirrors:
+            ok = any(attr == mirrors[v] and line > end for attr, line in writes.get(v, []))
+            if not ok:
+                problems.append(('writeback:' + v, fn.lineno, 'the scan loop keeps self.%s in the local %s, restores it on back-up, but never writes it back to self.%s after the loop: '
+                                 'the next token starts from a stale input position' % (mirrors[v], v, mirrors[v])))
+    for v, attr in mirrors.items():
+        if v in r_t or v not in stores_in_loop or not any(a == attr for a, _ in writes.get(v, [])):
+            continue
+        last = max(stores_in_loop[v])
+        if not any(a == attr and line >= last for a, line in writes[v]):
+            problems.append(('writeback:' + v, last, 'local %s mirrors self.%s and is modified in the scan loop after its last write-back' % (v, attr)))
+    # every scanner-position local that is written back after the loop and modified in the loop must be part of the backup
+    for v, lst in writes.items():
+        if v in mirrors and any(attr == mirrors[v] and line > end for attr, line in lst) and v in stores_in_loop and v not in r_t:
+            problems.append(('backup:missing:' + v, save.lineno, 'the scan loop advances %s (self.%s) but does not save/restore it with the other position variables: '
+                             'after backing up to the longest match it keeps the value reached by the over-long scan' % (v, mirrors[v])))
+    return problems, info
+
+
+def rule_backup(px):
+    r = Rule('C50-BACKUP', 'run_machine_inlined: save-for-backup followed by back-up restores every scanner position variable to its own saved value '
+             '(evaluated as a round trip), backup starts empty and yields action None when nothing accepted, restored/advanced mirrors of self '
+             'attributes are written back after the loop', floor=10)
+    fn = px.method('Scanners', 'Scanner', 'run_machine_inlined')
+    problems, info = _model('Scanner.run_machine_inlined', lambda: check_backup(fn))
+    for v in info['restored']:
+        r.inst('restore:' + v, sample='%s <- %s' % (v, info['saved'][info['restored'].index(v)] if len(info['saved']) == len(info['restored']) else '?'))
+    for v in info['mirrors']:
+        r.inst('mirror:' + v, sample='%s mirrors self.%s' % (v, info['mirrors'][v]))
+    r.inst('backup:init')
+    r.inst('restore:none')
+    if len(info['restored']) < 6:
+        raise AnalysisError('run_machine_inlined: only %d variables are saved for backup (the input position has 6 components)' % len(info['restored']))
+    for key, line, msg in problems:
+        r.violate('Scanner.run_machine_inlined:' + key, px.rel('Scanners'), line, msg)
+    pc = ast.parse(
+        "def run(self):\n    cur_pos = self.cur_pos\n    cur_line = self.cur_line\n    b_a, b_p, b_l = None, 0, 0\n    while 1:\n        action = state['action']\n"
+        "        if action is not None:\n            b_a, b_p, b_l = action, cur_pos, cur_line\n        if new_state:\n            cur_pos = 1\n            cur_line += 1\n        else:\n"
+        "            if b_a is not None:\n                (action, cur_line, cur_pos) = (b_a, b_p, b_l)\n            else:\n                action = None\n            break\n"
+        "    self.cur_pos = cur_pos\n    self.cur_line = cur_line\n    return action\n").body[0]
+    r.positive_control(any(k.startswith('restore:cur_') for k, _, _ in check_backup(pc)[0]), 'swapped restore slots')
+    return r
+
+
+# ====================================================================================== R5 split copies the neighbouring set
+def check_split(px, fn):
+    """-> list of (key, line, msg); raises AnalysisError when the insertion cannot be found"""
+    problems = []
+    found = 0
+    for n in walk_no_nested(fn):
+        ins_idx = val = None
+        if isinstance(n, ast.Assign) and isinstance(n.targets[0], ast.Subscript) and isinstance(n.targets[0].slice, ast.Slice) and isinstance(n.value, ast.List) \
+                and len(n.value.elts) == 2:
+            sl = n.targets[0].slice
+            if sl.lower is not None and sl.upper is not None and ast.dump(sl.lower) == ast.dump(sl.upper):
+                ins_idx, val, mapname = sl.lower, n.value.elts[1], n.targets[0].value
+        if ins_idx is None:
+            continue
+        found += 1
+        # unwrap the copy
+        inner, copied = val, False
+        if isinstance(val, ast.Call) and isinstance(val.func, ast.Attribute) and val.func.attr == 'copy' and not val.args:
+            inner, copied = val.func.value, True
+        elif isinstance(val, ast.Call) and isinstance(val.func, ast.Name) and val.func.id in ('set', 'copy') and len(val.args) == 1:
+            inner, copied = val.args[0], True
+        elif isinstance(val, ast.Call) and isinstance(val.func, ast.Name) and val.func.id == 'set' and not val.args:
+            problems.append(('empty', n.lineno, 'split() gives the new upper sub-range an EMPTY state set: transitions already added for codes above the split point are lost'))
+            continue
+        elif isinstance(val, ast.Set) and len(val.elts) == 1 and isinstance(val.elts[0], ast.Starred):
+            inner, copied = val.elts[0].value, True
+        if not (isinstance(inner, ast.Subscript) and ast.dump(inner.value) == ast.dump(mapname)):
+            raise AnalysisError('TransitionMap.split: inserted state set %s not understood' % node_src(val))
+        if not copied:
+            problems.append(('alias', n.lineno, 'split() inserts %s itself, not a copy: the two sub-ranges share ONE set object, so a transition added for one '
+                             'sub-range silently applies to the other (a rule then matches characters outside its range)' % node_src(inner)))
+        try:
+            d = Mini().ev(inner.slice, {x.id: 10 for x in ast.walk(ins_idx) if isinstance(x, ast.Name)}) - Mini().ev(ins_idx, {x.id: 10 for x in ast.walk(ins_idx) if isinstance(x, ast.Name)})
+        except Unknown:
+            raise AnalysisError('TransitionMap.split: index %s not understood' % node_src(inner.slice))
+        if d != -1:
+            problems.append(('neighbour', n.lineno, 'split() copies %s; the range being split is the one ending at the insertion point, map[%s - 1]' % (node_src(inner), node_src(ins_idx))))
+    if not found:
+        raise AnalysisError('TransitionMap.split: split-point insertion (map[i:i] = [code, set]) not found')
+    return problems
+
+
+def rule_split(px):
+    r = Rule('C50-SPLIT', 'TransitionMap.split inserts [code, COPY of the state set of the range being split] (no aliasing, not empty, the lower neighbour); add/add_set split at both ends of the range', floor=2)
+    fn = px.method('Transitions', 'TransitionMap', 'split')
+    r.inst('TransitionMap.split:insert', sample='split inserts a copy of the neighbouring set')
+    for key, line, msg in check_split(px, fn):
+        r.violate('TransitionMap.split:' + key, px.rel('Transitions'), line, msg)
+    pc = ast.parse("def split(self, code):\n    map = self.map\n    hi = len(map) - 1\n    map[hi:hi] = [code, map[hi - 1]]\n    return hi\n").body[0]
+    r.positive_control(any(k == 'alias' for k, _, _ in check_split(px, pc)), 'aliased set')
+    # add/add_set: both end points are split and every range in between receives the state(s)
+    for name in ('add', 'add_set'):
+        fn = px.method('Transitions', 'TransitionMap', name)
+        ps = params(fn)
+        splits = _method_calls(fn, 'split')
+        key = 'TransitionMap.%s:split-both-ends' % name
+        r.inst(key, sample='%s splits at %s' % (name, [node_src(c) for c in splits]))
+        # the two tuple components of the event
+        comps = None
+        for n in walk_no_nested(fn):
+            if isinstance(n, ast.Assign) and isinstance(n.targets[0], ast.Tuple) and isinstance(n.value, ast.Name) and n.value.id == ps[1] and len(n.targets[0].elts) == 2:
+                comps = [e.id for e in n.targets[0].elts if isinstance(e, ast.Name)]
+        if not comps or len(comps) != 2:
+            raise AnalysisError('TransitionMap.%s: unpacking of the (code0, code1) event not found' % name)
+        got = [c.args[0].id for c in splits if c.args and isinstance(c.args[0], ast.Name)]
+        if sorted(got) != sorted(comps):
+            r.violate(key, px.rel('Transitions'), fn.lineno, '%s() must create split points at both %s and %s; it splits at %s: the new transition leaks into the neighbouring codes' % (name, comps[0], comps[1], got))
+    return r
+
+
+# ====================================================================================== R6 open-ended ranges come in complementary pairs
+def check_inf(px, fn, mod='Regexps'):
+    """uses of the sentinel inside one function -> problems"""
+    uses = [n for n in walk_no_nested(fn) if isinstance(n, ast.Name) and isinstance(n.ctx, ast.Load) and n.id == 'maxint']
+    if not uses:
+        return None
+    lows, highs = set(), set()
+    other = []
+    for n in walk_no_nested(fn):
+        if isinstance(n, ast.Call) and isinstance(n.func, ast.Attribute) and isinstance(n.func.value, ast.Name):
+            if n.func.attr == 'insert' and len(n.args) == 2 and isinstance(n.args[0], ast.Constant) and n.args[0].value == 0:
+                a = n.args[1]
+                if isinstance(a, ast.UnaryOp) and isinstance(a.op, ast.USub) and isinstance(a.operand, ast.Name) and a.operand.id == 'maxint':
+                    lows.add(n.func.value.id)
+                elif isinstance(a, ast.Name) and a.id == 'maxint':
+                    other.append((n, 'inserts +maxint at the FRONT of the code list'))
+            if n.func.attr == 'append' and len(n.args) == 1:
+                a = n.args[0]
+                if isinstance(a, ast.Name) and a.id == 'maxint':
+                    highs.add(n.func.value.id)
+                elif isinstance(a, ast.UnaryOp) and isinstance(a.op, ast.USub) and isinstance(a.operand, ast.Name) and a.operand.id == 'maxint':
+                    other.append((n, 'appends -maxint at the END of the code list'))
+        if isinstance(n, ast.BinOp) and isinstance(n.op, ast.Add):
+            # [-maxint] + ranges + [maxint]
+            flat = []
+
+            def fl(x):
+                if isinstance(x, ast.BinOp) and isinstance(x.op, ast.Add):
+                    fl(x.left)
+                    fl(x.right)
+                else:
+                    flat.append(x)
+            fl(n)
+            def is_l(x, neg):
+                if not (isinstance(x, ast.List) and len(x.elts) == 1):
+                    return False
+                e = x.elts[0]
+                if neg:
+                    return isinstance(e, ast.UnaryOp) and isinstance(e.op, ast.USub) and isinstance(e.operand, ast.Name) and e.operand.id == 'maxint'
+                return isinstance(e, ast.Name) and e.id == 'maxint'
+            if len(flat) >= 3 and is_l(flat[0], True) and is_l(flat[-1], False):
+                lows.add('+')
+                highs.add('+')
+    problems = []
+    for n, what in other:
+        problems.append(('misplaced', n.lineno, '%s %s: the alternating [start, end, start, end ...] list no longer describes the complement' % (fn.name, what)))
+    for x in sorted(lows ^ highs):
+        side = 'low' if x in lows else 'high'
+        problems.append(('unpaired', fn.lineno,
+                         '%s builds a range that is open at the %s end only (list %s): FastMachine keeps ONE else slot for both open ends, so an unpaired open range '
+                         'either swallows all large codes or is dropped entirely' % (fn.name, side, x)))
+    if not lows and not highs and not other:
+        problems.append(('unrecognised', uses[0].lineno, '%s uses the sentinel maxint outside the complement construction (front -maxint, back +maxint)' % fn.name))
+    return problems
+
+
+def rule_inf(px):
+    r = Rule('C50-INF', 'open-ended code ranges are only built as the complementary pair (-maxint, a) ... (b, +maxint) of one AnyBut list, '
+             'the only shape FastMachine\'s single else slot represents', floor=1)
+    tree = px.trees['Regexps']
+    for n in tree.body:
+        if isinstance(n, ast.FunctionDef):
+            p = check_inf(px, n)
+            if p is None:
+                continue
+            r.inst('Regexps.%s' % n.name, sample='%s builds open-ended ranges' % n.name)
+            for key, line, msg in p:
+                r.violate('Regexps.%s:%s' % (n.name, key), px.rel('Regexps'), line, msg)
+        elif isinstance(n, ast.ClassDef):
+            for f in n.body:
+                if isinstance(f, ast.FunctionDef):
+                    p = check_inf(px, f)
+                    if p is not None:
+                        r.inst('Regexps.%s.%s' % (n.name, f.name))
+                        for key, line, msg in p:
+                            r.violate('Regexps.%s.%s:%s' % (n.name, f.name, key), px.rel('Regexps'), line, msg)
+    pc = ast.parse("def AnyBut(s):\n    ranges = chars_to_ranges(s)\n    ranges.insert(0, -maxint)\n    return CodeRanges(ranges)\n").body[0]
+    r.positive_control(any(k == 'unpaired' for k, _, _ in check_inf(px, pc)), 'low end only')
+    return r
+
+
+# ====================================================================================== R7 NFA construction schemata in Regexps
+MB = 4     # position of match_bol in build_machine(self, m, initial_state, final_state, match_bol, nocase)
+
+
+def _build_machines(px):
+    out = []
+    for c in px.trees['Regexps'].body:
+        if isinstance(c, ast.ClassDef):
+            for f in c.body:
+                if isinstance(f, ast.FunctionDef) and f.name == 'build_machine':
+                    if len(params(f)) < 6:
+                        raise AnalysisError('Regexps.%s.build_machine: unexpected signature' % c.name)
+                    out.append((c, f))
+    return out
+
+
+def _is_eps(px, node):
+    return px.eval_const('Regexps', node) == ''
+
+
+def _bol_option(px, fn, bol):
+    """the `if match_bol...: S = self.build_opt(m, S, BOL)` step -> (If node, rebound name) or None"""
+    mb = params(fn)[MB]
+    for n in walk_no_nested(fn):
+        if isinstance(n, ast.If) and any(isinstance(x, ast.Name) and x.id == mb for x in ast.walk(n.test)):
+            for s in n.body:
+                if isinstance(s, ast.Assign) and isinstance(s.targets[0], ast.Name) and isinstance(s.value, ast.Call) and \
+                        isinstance(s.value.func, ast.Attribute) and s.value.func.attr == 'build_opt' and len(s.value.args) == 3 and \
+                        px.eval_const('Regexps', s.value.args[2]) == bol:
+                    src = s.value.args[1]
+                    if isinstance(src, ast.Name) and src.id == s.targets[0].id:
+                        return n, s.targets[0].id
+    return None
+
+
+def _lang_eval(node, env, bound=8):
+    """language over a one-letter alphabet (set of lengths <= bound) of an RE constructor expression"""
+    def cap(s):
+        return frozenset(x for x in s if x <= bound)
+    if isinstance(node, ast.Name):
+        if node.id in env:
+            return env[node.id]
+        raise Unknown(node.id)
+    if isinstance(node, ast.Call) and isinstance(node.func, ast.Name):
+        f = node.func.id
+        args = [_lang_eval(a, env, bound) for a in node.args]
+        if f == 'Alt':
+            return cap(frozenset().union(*args)) if args else frozenset()
+        if f == 'Seq':
+            cur = frozenset([0])
+            for a in args:
+                cur = cap({x + y for x in cur for y in a})
+            return cur
+        if f == 'Rep1' and len(args) == 1:
+            cur, tot = args[0], set(args[0])
+            for _ in range(bound):
+                cur = cap({x + y for x in cur for y in args[0]})
+                tot |= cur
+            return cap(tot)
+        if f == 'Opt' and len(args) == 1:
+            return cap(set(args[0]) | {0})
+        if f == 'Rep' and len(args) == 1:
+            return _lang_eval(ast.Call(func=ast.Name(id='Opt', ctx=ast.Load()), args=[ast.Call(func=ast.Name(id='Rep1', ctx=ast.Load()), args=[ast.Name(id='__a', ctx=ast.Load())], keywords=[])], keywords=[]),
+                              dict(env, __a=args[0]), bound)
+    raise Unknown(node_src(node))
+
+
+def _returned_expr(fn):
+    rets = [n for n in walk_no_nested(fn) if isinstance(n, ast.Return) and n.value is not None]
+    if len(rets) != 1:
+        return None
+    v = rets[0].value
+    if isinstance(v, ast.Name):
+        defs = [n.value for n in walk_no_nested(fn) if isinstance(n, ast.Assign) and len(n.targets) == 1 and isinstance(n.targets[0], ast.Name) and n.targets[0].id == v.id]
+        return defs[-1] if len(defs) == 1 else None
+    return v
+
+
+def check_rep1(px, fn):
+    """edges of the construction; language from initial to final over the letter R must be R+"""
+    ps = params(fn)
+    init, final = ps[2], ps[3]
+    edges = []
+    for n in walk_no_nested(fn):
+        if isinstance(n, ast.Call) and isinstance(n.func, ast.Attribute) and isinstance(n.func.value, ast.Name):
+            if n.func.attr == 'link_to' and len(n.args) == 1 and isinstance(n.args[0], ast.Name):
+                edges.append((n.func.value.id, '', n.args[0].id))
+            elif n.func.attr == 'add_transition' and len(n.args) == 2 and _is_eps(px, n.args[0]) and isinstance(n.args[1], ast.Name):
+                edges.append((n.func.value.id, '', n.args[1].id))
+        if isinstance(n, ast.Call) and isinstance(n.func, ast.Attribute) and n.func.attr == 'build_machine' and len(n.args) >= 3 and \
+                isinstance(n.args[1], ast.Name) and isinstance(n.args[2], ast.Name):
+            edges.append((n.args[1].id, 'R', n.args[2].id))
+
+    def closure(S):
+        S = set(S)
+        ch = True
+        while ch:
+            ch = False
+            for a, l, b in edges:
+                if l == '' and a in S and b not in S:
+                    S.add(b)
+                    ch = True
+        return S
+    cur = closure({init})
+    acc = []
+    for n in range(9):
+        acc.append(final in cur)
+        cur = closure({b for a, l, b in edges if l == 'R' and a in cur})
+    return edges, acc
+
+
+def rule_nfa(px):
+    r = Rule('C50-NFA', 'NFA construction schemata of Regexps: every primitive offers the optional BOL step when match_bol is set, composites forward match_bol '
+             '(Seq: after a newline-capable or nullable-at-BOL element; Rep1: also when the body can end in a newline), build_opt adds both the epsilon '
+             'and the symbol edge, Rep1 builds exactly body+, Opt/Rep are body? / body*, tokens are built with match_bol on and nocase off', floor=16)
+    bol = px.const('Regexps', 'BOL')
+    rel = px.rel('Regexps')
+    bms = _build_machines(px)
+    if len(bms) < 6:
+        raise AnalysisError('only %d build_machine methods found in Regexps' % len(bms))
+    nl = px.const('Regexps', 'nl_code')
+    if not isinstance(nl, int):
+        raise AnalysisError('Regexps.nl_code not resolvable')
+    for c, fn in bms:
+        mb = params(fn)[MB]
+        direct = [n for n in _method_calls(fn, 'add_transition') if len(n.args) == 2 and not _is_eps(px, n.args[0])]
+        inner = _method_calls(fn, 'build_machine')
+        opt = _bol_option(px, fn, bol)
+        if not direct and not inner:
+            if any(isinstance(s, ast.Raise) for s in fn.body):
+                continue     # abstract
+        if direct:
+            key = 'Regexps.%s.build_machine:bol-option' % c.name
+            r.inst(key, sample='%s consumes %s directly; BOL option: %s' % (c.name, node_src(direct[0].args[0]), bool(opt)))
+            if not opt:
+                r.violate(key, rel, fn.lineno,
+                          '%s.build_machine adds a transition on %s but has no `if %s: state = self.build_opt(m, state, BOL)` step: the scanner feeds BOL before the '
+                          'first character of every line, so this RE cannot match at the beginning of a line' % (c.name, node_src(direct[0].args[0]), mb))
+            else:
+                used = any(isinstance(n, ast.Name) and n.id == opt[1] and isinstance(n.ctx, ast.Load) and n.lineno > opt[0].end_lineno for n in walk_no_nested(fn))
+                if not used:
+                    r.violate(key, rel, opt[0].lineno, '%s.build_machine creates the optional-BOL state but does not continue from it' % c.name)
+        for i, call in enumerate(inner):
+            a = call.args[MB - 1] if len(call.args) >= MB else next((k.value for k in call.keywords if k.arg == mb), None)
+            key = 'Regexps.%s.build_machine:forward#%d' % (c.name, i)
+            r.inst(key, sample='%s passes match_bol=%s to %s' % (c.name, node_src(a) if a is not None else None, node_src(call.func.value)))
+            if a is None:
+                raise AnalysisError('Regexps.%s.build_machine: match_bol argument of inner build_machine not found' % c.name)
+            if any(isinstance(x, ast.Name) and x.id == mb for x in ast.walk(a)):
+                continue
+            try:
+                v = Mini().ev(a, {})
+            except Unknown:
+                v = UNK
+            if v is not UNK and v:
+                continue
+            if v is not UNK and not v and opt and opt[0].lineno < call.lineno:
+                continue
+            r.violate(key, rel, call.lineno,
+                      '%s.build_machine builds its sub-expression with match_bol=%s without having offered the BOL step itself: when %s is set the sub-expression cannot '
+                      'match at the beginning of a line' % (c.name, node_src(a), mb))
+        # newline consumers must announce match_nl
+        for n in direct:
+            ev = n.args[0]
+            if isinstance(ev, ast.Tuple) and any(px.eval_const('Regexps', e) == nl for e in ev.elts):
+                key = 'Regexps.%s:match_nl' % c.name
+                attr = [s.value for s in c.body if isinstance(s, ast.Assign) and any(isinstance(t, ast.Name) and t.id == 'match_nl' for t in s.targets)]
+                r.inst(key, sample='%s consumes the newline character; match_nl = %s' % (c.name, node_src(attr[-1]) if attr else 'inherited'))
+                if attr and isinstance(attr[-1], ast.Constant) and not attr[-1].value:
+                    r.violate(key, rel, c.lineno, '%s matches a newline but declares match_nl = %r: Seq/Rep1 do not offer the BOL step after it, so nothing can follow a '
+                              'newline inside one token' % (c.name, attr[-1].value))
+    # build_opt
+    bo = px.method('Regexps', 'RE', 'build_opt')
+    ps = params(bo)
+    news = [n.targets[0].id for n in walk_no_nested(bo) if isinstance(n, ast.Assign) and isinstance(n.targets[0], ast.Name) and isinstance(n.value, ast.Call)
+            and isinstance(n.value.func, ast.Attribute) and n.value.func.attr == 'new_state']
+    if not news or len(ps) < 4:
+        raise AnalysisError('RE.build_opt: new state not found')
+    s = news[0]
+    eps = sym = False
+    for n in walk_no_nested(bo):
+        if isinstance(n, ast.Call) and isinstance(n.func, ast.Attribute) and isinstance(n.func.value, ast.Name) and n.func.value.id == ps[2]:
+            if n.func.attr == 'link_to' and n.args and isinstance(n.args[0], ast.Name) and n.args[0].id == s:
+                eps = True
+            if n.func.attr == 'add_transition' and len(n.args) == 2 and isinstance(n.args[1], ast.Name) and n.args[1].id == s:
+                if _is_eps(px, n.args[0]):
+                    eps = True
+                elif isinstance(n.args[0], ast.Name) and n.args[0].id == ps[3]:
+                    sym = True
+    ret = any(isinstance(n, ast.Return) and isinstance(n.value, ast.Name) and n.value.id == s for n in walk_no_nested(bo))
+    for key, ok, msg in (('epsilon', eps, 'no epsilon edge from the initial state to the new state: the symbol becomes mandatory (tokens only match at the beginning of a line)'),
+                         ('symbol', sym, 'no edge on the symbol %s from the initial state to the new state: the optional symbol can never be consumed' % ps[3]),
+                         ('return', ret, 'does not return the new state')):
+        r.inst('Regexps.RE.build_opt:' + key)
+        if not ok:
+            r.violate('Regexps.RE.build_opt:' + key, rel, bo.lineno, 'build_opt: ' + msg)
+    # Rep1 = body+
+    rep1 = dict((c.name, f) for c, f in bms).get('Rep1')
+    if rep1 is None:
+        raise AnalysisError('Regexps.Rep1.build_machine not found')
+    edges, acc = check_rep1(px, rep1)
+    r.inst('Regexps.Rep1.build_machine:language', sample='edges %s accept body^n for n in %s' % (edges, [i for i, a in enumerate(acc) if a]))
+    if acc != [False] + [True] * 8:
+        r.violate('Regexps.Rep1.build_machine:language', rel, rep1.lineno,
+                  'Rep1 builds a machine accepting body^n for n in %s (edges %s); one-or-more repetition needs every n >= 1 and not n = 0' % ([i for i, a in enumerate(acc) if a], edges))
+    pc = ast.parse("def build_machine(self, m, initial_state, final_state, match_bol, nocase):\n    s1 = m.new_state()\n    s2 = m.new_state()\n    initial_state.link_to(s1)\n"
+                   "    self.re.build_machine(m, s1, s2, match_bol, nocase)\n    s2.link_to(final_state)\n").body[0]
+    r.positive_control(check_rep1(px, pc)[1] != [False] + [True] * 8, 'Rep1 without the back edge')
+    # Rep1: body may follow itself
+    call = _method_calls(rep1, 'build_machine')
+    if call:
+        a = call[0].args[MB - 1]
+        mb = params(rep1)[MB]
+        bad = []
+        for bolv in (0, 1):
+            for nlv in (0, 1):
+                try:
+                    v = Mini().ev(a, {mb: bolv, 'self': NS(re=NS(match_nl=nlv, nullable=0))})
+                except Unknown as e:
+                    raise AnalysisError('Rep1.build_machine: match_bol argument %s not understood (%s)' % (node_src(a), e))
+                if (bolv or nlv) and not v:
+                    bad.append((bolv, nlv))
+        r.inst('Regexps.Rep1.build_machine:match_bol', sample='body built with match_bol = %s' % node_src(a))
+        if bad:
+            r.violate('Regexps.Rep1.build_machine:match_bol', rel, call[0].lineno,
+                      'Rep1 builds its body with match_bol=%s, which is false for (match_bol, body.match_nl) in %s: a repetition following a newline-terminated repetition '
+                      'cannot consume the BOL marker' % (node_src(a), bad))
+    # Seq: propagation of match_bol along the sequence
+    seq = dict((c.name, f) for c, f in bms).get('Seq')
+    if seq is None:
+        raise AnalysisError('Regexps.Seq.build_machine not found')
+    mb = params(seq)[MB]
+    loops = [n for n in walk_no_nested(seq) if isinstance(n, ast.For)]
+    upd = None
+    elem = None
+    for lp in loops:
+        for n in ast.walk(lp):
+            if isinstance(n, ast.Assign) and isinstance(n.targets[0], ast.Name) and n.targets[0].id == mb:
+                upd = n
+            if isinstance(n, ast.Call) and isinstance(n.func, ast.Attribute) and n.func.attr == 'build_machine' and isinstance(n.func.value, ast.Name):
+                elem = n.func.value.id
+    r.inst('Regexps.Seq.build_machine:propagate', sample='Seq updates match_bol by %s' % (node_src(upd) if upd is not None else None))
+    if upd is None or elem is None:
+        r.violate('Regexps.Seq.build_machine:propagate', rel, seq.lineno,
+                  'Seq.build_machine does not recompute %s after each element: an element following a newline inside the sequence cannot consume the BOL marker' % mb)
+    else:
+        bad = []
+        for bolv in (0, 1):
+            for nlv in (0, 1):
+                for nullv in (0, 1):
+                    try:
+                        v = Mini().ev(upd.value, {mb: bolv, elem: NS(match_nl=nlv, nullable=nullv)})
+                    except Unknown as e:
+                        raise AnalysisError('Seq.build_machine: %s not understood (%s)' % (node_src(upd), e))
+                    if (nlv or (bolv and nullv)) and not v:
+                        bad.append((bolv, nlv, nullv))
+        if bad:
+            r.violate('Regexps.Seq.build_machine:propagate', rel, upd.lineno,
+                      'Seq computes the next element\'s match_bol as %s, false for (match_bol, element.match_nl, element.nullable) in %s where a BOL marker can arrive '
+                      '(after a newline, or at line start behind an element that matched nothing)' % (node_src(upd.value), bad))
+    # Opt / Rep as languages
+    for name, want in (('Opt', frozenset([0, 1])), ('Rep', frozenset(range(9)))):
+        fn = px.func('Regexps', name)
+        e = _returned_expr(fn)
+        key = 'Regexps.%s:language' % name
+        r.inst(key, sample='%s(re) = %s' % (name, node_src(e) if e is not None else None))
+        if e is None:
+            raise AnalysisError('Regexps.%s: returned expression not found' % name)
+        try:
+            env = {params(fn)[0]: frozenset([1])}
+            emp = px.const_node('Regexps', 'Empty')
+            if emp is not None:
+                env['Empty'] = _lang_eval(emp[1], {})
+            got = _lang_eval(e, env)
+        except Unknown as ex:
+            raise AnalysisError('Regexps.%s: expression %s not understood (%s)' % (name, node_src(e), ex))
+        if got != want:
+            r.violate(key, rel, fn.lineno, '%s(re) is built as %s, which matches re^n for n in %s; expected n in %s' % (name, node_src(e), sorted(got), sorted(want)))
+    # tokens are built from the line-start context, case sensitive
+    add_tok = px.method('Lexicons', 'Lexicon', 'add_token_to_machine')
+    calls = _method_calls(add_tok, 'build_machine')
+    if not calls:
+        raise AnalysisError('Lexicon.add_token_to_machine no longer calls build_machine')
+    base = px.method('Regexps', 'RE', 'build_machine')
+    for pname, want in ((params(base)[MB], True), (params(base)[MB + 1], False)):
+        a = arg_at(calls[0], base, pname)
+        key = 'Lexicon.add_token_to_machine:%s' % pname
+        r.inst(key, sample='tokens are built with %s=%s' % (pname, node_src(a) if a is not None else None))
+        try:
+            v = Mini().ev(a, {}) if a is not None else UNK
+        except Unknown:
+            v = UNK
+        if v is UNK or bool(v) != want:
+            r.violate(key, px.rel('Lexicons'), calls[0].lineno,
+                      ('every token may start at the beginning of a line, so its machine must be built with %s true; found %s' if want else
+                       'tokens are case sensitive unless wrapped in NoCase, so %s must be false; found %s') % (pname, node_src(a) if a is not None else None))
+    return r
+
+
+# ====================================================================================== R8 subset construction
+def rule_closure(px):
+    r = Rule('C50-DFA', 'nfa_to_dfa: every NFA state set that becomes a DFA state is epsilon-closed (initial states and transition targets), epsilon moves are not '
+             'copied as DFA transitions, link_to/get_epsilon agree on the epsilon key, the closure is reflexive and recursive', floor=6)
+    tree = px.trees['DFA']
+    rel = px.rel('DFA')
+    funcs = {n.name: n for n in tree.body if isinstance(n, ast.FunctionDef)}
+    F = {name for name, fn in funcs.items() if _method_calls(fn, 'get_epsilon')}
+    ch = True
+    while ch:
+        ch = False
+        for name, fn in funcs.items():
+            if name not in F and any(isinstance(n, ast.Call) and isinstance(n.func, ast.Name) and n.func.id in F for n in walk_no_nested(fn)):
+                F.add(name)
+                ch = True
+    F.discard('nfa_to_dfa')
+    if not F:
+        raise AnalysisError('DFA.py: no epsilon-closure function (caller of get_epsilon) found')
+    fn = funcs.get('nfa_to_dfa')
+    if fn is None:
+        raise AnalysisError('DFA.nfa_to_dfa not found')
+
+    def closed(a):
+        return isinstance(a, ast.Call) and isinstance(a.func, ast.Name) and a.func.id in F
+    adds = [c for c in _method_calls(fn, 'add_set') + _method_calls(fn, 'add') if len(c.args) == 2]
+    if not adds:
+        raise AnalysisError('nfa_to_dfa: no TransitionMap.add_set call found')
+    for i, c in enumerate(adds):
+        key = 'DFA.nfa_to_dfa:target-closure#%d' % i
+        r.inst(key, sample=node_src(c))
+        if not closed(c.args[1]):
+            r.violate('DFA.nfa_to_dfa:target-closure', rel, c.lineno,
+                      'the target states %s are merged into the new transition map without taking their epsilon closure: states reachable only through epsilon moves '
+                      '(the inside of every Alt/Rep/Opt) are lost from the DFA' % node_src(c.args[1]))
+    loopvars = set()
+    filled = {c.func.value.id for c in adds if isinstance(c.func.value, ast.Name)}
+    for n in walk_no_nested(fn):
+        if isinstance(n, ast.For) and isinstance(n.iter, ast.Call) and isinstance(n.iter.func, ast.Attribute) and n.iter.func.attr in ('items', 'iteritems') \
+                and isinstance(n.iter.func.value, ast.Name) and n.iter.func.value.id in filled:
+            for x in ast.walk(n.target):
+                if isinstance(x, ast.Name):
+                    loopvars.add(x.id)
+    for i, c in enumerate(_method_calls(fn, 'old_to_new')):
+        key = 'DFA.nfa_to_dfa:old_to_new#%d' % i
+        a = c.args[0] if c.args else None
+        r.inst(key, sample=node_src(c))
+        if not (closed(a) or (isinstance(a, ast.Name) and a.id in loopvars)):
+            r.violate('DFA.nfa_to_dfa:state-closure', rel, c.lineno,
+                      'a DFA state is created from %s, which is not an epsilon-closed set: the start state lacks the states reachable by epsilon moves, so no rule can begin' % node_src(a))
+    pcx = ast.parse("transitions.add_set(event, old_target_states)").body[0].value
+    r.positive_control(not closed(pcx.args[1]), 'targets merged without epsilon closure')
+    # epsilon filter around the add_set
+    add = adds[0]
+    chain = _enclosing_if(fn, add)
+    outer_for = None
+    for n in walk_no_nested(fn):
+        if isinstance(n, ast.For) and any(x is add for x in ast.walk(n)) and isinstance(n.target, ast.Tuple) and len(n.target.elts) == 2 \
+                and all(isinstance(e, ast.Name) for e in n.target.elts):
+            outer_for = n       # innermost wins (walk order is not nesting order; take the one with the largest lineno)
+    cands = [n for n in walk_no_nested(fn) if isinstance(n, ast.For) and any(x is add for x in ast.walk(n)) and isinstance(n.target, ast.Tuple)
+             and len(n.target.elts) == 2 and all(isinstance(e, ast.Name) for e in n.target.elts)]
+    r.inst('DFA.nfa_to_dfa:epsilon-filter')
+    if not cands:
+        raise AnalysisError('nfa_to_dfa: loop over (event, targets) not found')
+    lp = max(cands, key=lambda n: n.lineno)
+    evn, tgn = lp.target.elts[0].id, lp.target.elts[1].id
+
+    def calls_add(event, targets):
+        outs = Mini().block(lp.body, {evn: event, tgn: targets})
+        return _agree(outs, lambda e, sig: any('add' in ev[1].split('.')[-1] for ev in events(e, 'call')))
+    res = _model('nfa_to_dfa', lambda: (calls_add('', {1}), calls_add('bol', {1}), calls_add((97, 98), {1})))
+    if res[0]:
+        r.violate('DFA.nfa_to_dfa:epsilon-filter', rel, add.lineno,
+                  'epsilon moves (event \'\') are copied into the DFA transition map: the DFA gets a transition on the empty pseudo-character the scanner feeds after EOF')
+    if not (res[1] and res[2]):
+        r.violate('DFA.nfa_to_dfa:event-dropped', rel, add.lineno, 'transitions on %s are not copied into the DFA' % ('special symbols' if not res[1] else 'character ranges'))
+    # epsilon key
+    lt = px.method('Machines', 'Node', 'link_to')
+    ge = px.method('Transitions', 'TransitionMap', 'get_epsilon')
+    k1 = [px.eval_const('Machines', c.args[0]) for c in _method_calls(lt, 'add_transition') if len(c.args) == 2]
+    k2 = [c.args[0].value for c in _method_calls(ge, 'get') if c.args and isinstance(c.args[0], ast.Constant)]
+    r.inst('epsilon-key', sample='link_to adds on %r, get_epsilon reads %r' % (k1, k2))
+    if not k1 or not k2:
+        raise AnalysisError('Node.link_to / TransitionMap.get_epsilon: epsilon key not found')
+    if k1[0] != k2[0] or k1[0]:
+        r.violate('epsilon-key', px.rel('Machines'), lt.lineno,
+                  'Node.link_to records epsilon moves under %r but TransitionMap.get_epsilon reads %r (and nfa_to_dfa skips only falsy events): epsilon moves are never followed' % (k1[0], k2[0]))
+    # closure function: reflexive + recursive
+    rec = [f for name, f in funcs.items() if name in F and any(isinstance(n, ast.Call) and isinstance(n.func, ast.Name) and n.func.id == name for n in walk_no_nested(f))]
+    r.inst('closure:recursive', sample='recursive closure function: %s' % [f.name for f in rec])
+    if not rec:
+        raise AnalysisError('DFA.py: recursive epsilon-closure helper not found')
+    f = rec[0]
+    ps = params(f)
+    adds_self = any(isinstance(n, ast.Call) and isinstance(n.func, ast.Attribute) and n.func.attr == 'add' and isinstance(n.func.value, ast.Name) and n.func.value.id == ps[0]
+                    and n.args and isinstance(n.args[0], ast.Name) and n.args[0].id == ps[1] for n in walk_no_nested(f))
+    r.inst('closure:reflexive')
+    if not adds_self:
+        r.violate('closure:reflexive', rel, f.lineno, '%s does not add the state itself to its closure' % f.name)
+    recurses = False
+    for n in walk_no_nested(f):
+        if isinstance(n, ast.For) and isinstance(n.target, ast.Name):
+            for c in ast.walk(n):
+                if isinstance(c, ast.Call) and isinstance(c.func, ast.Name) and c.func.id == f.name and len(c.args) == 2 and \
+                        isinstance(c.args[0], ast.Name) and c.args[0].id == ps[0] and isinstance(c.args[1], ast.Name) and c.args[1].id == n.target.id:
+                    recurses = True
+    if not recurses:
+        r.violate('closure:recursive', rel, f.lineno, '%s does not recurse into every epsilon successor with the same result set: chains of epsilon moves are cut after one step' % f.name)
+    return r
+
+
+# ====================================================================================== R9 pseudo-character protocol of the scan loop
+def check_protocol(px, fn, init_state, init_char, consts):
+    loops = [n for n in fn.body if isinstance(n, ast.While)]
+    if not loops:
+        raise AnalysisError('run_machine_inlined: scan loop not found')
+    chain = None
+    for n in ast.walk(loops[0]):
+        if isinstance(n, ast.If) and isinstance(n.test, ast.Compare) and isinstance(n.test.left, ast.Name) and n.test.left.id == 'input_state':
+            if chain is None or n.lineno < chain.lineno:
+                chain = n
+    if chain is None:
+        raise AnalysisError('run_machine_inlined: input_state dispatch not found')
+    cache = {}
+
+    def outcome(k, c):
+        if (k, c) not in cache:
+            env = dict(consts)
+            env.update({'input_state': k, 'c': c, 'cur_char': 'prev'})
+            outs = Mini(frozen={'c'}).block([chain], env)
+            cache[(k, c)] = _agree(outs, lambda e, sig: (e.get('cur_char'), e.get('input_state')))
+        return cache[(k, c)]
+    text = ['x', '\n', 'y', '']
+    pos = 0
+    state = init_state
+    emitted = [init_char]
+    for _ in range(9):
+        o = {c: outcome(state, c) for c in ('\n', '', 'x', 'y')}
+        if len(set(o.values())) > 1:
+            c = text[pos] if pos < len(text) else ''
+            pos += 1
+        else:
+            c = 'x'
+        ch, state = o[c]
+        if ch is UNK or state is UNK:
+            raise Unmodelled('cur_char/input_state not determined in input state %r' % (state,))
+        emitted.append(ch)
+    return emitted, chain
+
+
+def rule_protocol(px):
+    r = Rule('C50-INPUT', "the scan loop feeds, for the text 'x\\ny' + end of file, exactly the pseudo-character sequence BOL x EOL \\n BOL y EOL EOF '' '' "
+             '(evaluated from the input_state dispatch of run_machine_inlined and the initial state set by Scanner.__init__)', floor=10)
+    fn = px.method('Scanners', 'Scanner', 'run_machine_inlined')
+    init = px.method('Scanners', 'Scanner', '__init__')
+    consts = {n: px.const('Scanners', n) for n in ('BOL', 'EOL', 'EOF')}
+    if any(not isinstance(v, str) for v in consts.values()):
+        raise AnalysisError('Scanners: BOL/EOL/EOF do not resolve to the Regexps constants')
+    st0 = ch0 = None
+    for n in sorted([n for n in walk_no_nested(init) if isinstance(n, ast.Assign)], key=lambda n: n.lineno):
+        for t in n.targets:
+            if is_self_attr(t) and t.attr == 'input_state':
+                st0 = px.eval_const('Scanners', n.value)
+            if is_self_attr(t) and t.attr == 'cur_char':
+                ch0 = px.eval_const('Scanners', n.value)
+    if st0 is None or ch0 is None:
+        raise AnalysisError('Scanner.__init__: initial input_state / cur_char not found')
+    want = [consts['BOL'], 'x', consts['EOL'], '\n', consts['BOL'], 'y', consts['EOL'], consts['EOF'], '', '']
+
+    def diff(fn):
+        got, chain = _model('Scanner.run_machine_inlined', lambda: check_protocol(px, fn, st0, ch0, consts))
+        return got, chain
+    got, chain = diff(fn)
+    for i, w in enumerate(want):
+        r.inst('step#%d' % i, sample='step %d feeds %r' % (i, w))
+    if got != want:
+        i = next(i for i in range(len(want)) if got[i] != want[i])
+        where = 'Scanner.__init__' if i == 0 else 'run_machine_inlined'
+        r.violate('Scanner.%s:feed-sequence' % ('__init__' if i == 0 else 'run_machine_inlined'), px.rel('Scanners'), init.lineno if i == 0 else chain.lineno,
+                  "for the text 'x\\ny'<eof> %s feeds %r; the machines built by Regexps expect %r (first difference at step %d: %r instead of %r): "
+                  'newline, Bol, Eol or Eof can no longer be matched where they occur' % (where, got, want, i, got[i], want[i]))
+    pc = ast.parse("def run(self):\n    while 1:\n        if input_state == 1:\n            if c == '\\n':\n                cur_char = EOL\n                input_state = 2\n"
+                   "            elif not c:\n                cur_char = EOL\n                input_state = 4\n            else:\n                cur_char = c\n"
+                   "        elif input_state == 2:\n            cur_char = '\\n'\n            input_state = 3\n        elif input_state == 3:\n            cur_char = BOL\n            input_state = 1\n"
+                   "        elif input_state == 4:\n            cur_char = EOL\n            input_state = 5\n        else:\n            cur_char = ''\n").body[0]
+    r.positive_control(check_protocol(px, pc, st0, ch0, consts)[0] != want, 'EOF marker replaced by a second EOL')
+    return r
+
+
+# ====================================================================================== R10 nullable / match_nl attributes, newline split
+def _re_init_outcome(cls_name, init, subs, extra=()):
+    """evaluate an RE constructor's __init__ on stub sub-expressions -> (nullable, match_nl) of the new object"""
+    ps = params(init)
+    obj = NS()
+    env = {ps[0]: obj}
+    if init.args.vararg is not None:
+        env[init.args.vararg.arg] = tuple(subs)
+        rest = ps[1:]
+    else:
+        rest = ps[1:]
+        if not rest:
+            raise Unmodelled('no sub-expression parameter')
+        env[rest[0]] = subs[0]
+        rest = rest[1:]
+    for p, v in zip(rest, extra):
+        env[p] = v
+    outs = Mini().block(init.body, env)
+
+    def attrs(e, sig):
+        o = e[ps[0]]
+        return (getattr(o, 'nullable', 'class-default'), getattr(o, 'match_nl', 'class-default'))
+    return _agree(outs, attrs)
+
+
+def rule_attrs(px):
+    r = Rule('C50-ATTR', 'composite REs never under-state nullable / match_nl (Seq, Alt, Rep1, SwitchCase constructors evaluated on all stub combinations; these flags '
+             'decide where the optional BOL step is offered) and CodeRange routes the newline code through RawNewline', floor=7)
+    import itertools
+    rel = px.rel('Regexps')
+    kinds = [(a, b) for a in (0, 1) for b in (0, 1)]
+    specs = {
+        'Seq': (lambda subs: (all(n for n, _ in subs), any(nl and all(n for n, _ in subs[i + 1:]) for i, (_, nl) in enumerate(subs))), (0, 1, 2, 3)),
+        'Alt': (lambda subs: (any(n for n, _ in subs), any(nl for _, nl in subs)), (1, 2, 3)),
+        'Rep1': (lambda subs: subs[0], (1,)),
+        'SwitchCase': (lambda subs: subs[0], (1,)),
+    }
+    for cname, (want_fn, lens) in specs.items():
+        c = px.cls('Regexps', cname)
+        init = next((f for f in c.body if isinstance(f, ast.FunctionDef) and f.name == '__init__'), None)
+        if init is None:
+            raise AnalysisError('Regexps.%s.__init__ not found' % cname)
+        cls_default = {}
+        for k in px_mro_attrs(px, c):
+            cls_default.setdefault(k[0], k[1])
+
+        def run_all():
+            bad = {'nullable': [], 'match_nl': []}
+            for ln in lens:
+                for combo in itertools.product(kinds, repeat=ln):
+                    subs = [NS(nullable=n, match_nl=nl) for n, nl in combo]
+                    got = _re_init_outcome(cname, init, subs, extra=(0,))
+                    want = want_fn(list(combo))
+                    for i, attr in enumerate(('nullable', 'match_nl')):
+                        g = got[i]
+                        if g == 'class-default':
+                            g = cls_default.get(attr, 1)
+                        if g is UNK:
+                            raise Unmodelled('%s.%s not determined' % (cname, attr))
+                        if want[i] and not g:
+                            bad[attr].append(combo)
+            return bad
+        bad = _model('Regexps.%s.__init__' % cname, run_all)
+        if cname == 'Rep1':
+            real = init
+            init = ast.parse("def __init__(self, re):\n    self.check_re(1, re)\n    self.re = re\n    self.nullable = re.nullable\n    self.match_nl = 0\n").body[0]
+            r.positive_control(bool(run_all()['match_nl']), 'Rep1 that forgets match_nl')
+            init = real
+        for attr, why in (('nullable', 'an element that may match nothing is declared non-nullable: a following element is not offered the pending BOL marker at the start of a line'),
+                          ('match_nl', 'an expression that can end in a newline is declared not to: the element after it is not offered the BOL marker that follows every newline')):
+            key = 'Regexps.%s.__init__:%s' % (cname, attr)
+            r.inst(key, sample='%s(%s) computes %s' % (cname, '...', attr))
+            if bad[attr]:
+                r.violate(key, rel, init.lineno, '%s computes %s = false for sub-expressions with (nullable, match_nl) = %s: %s' % (cname, attr, bad[attr][0], why))
+    # CodeRange: newline split
+    fn = px.func('Regexps', 'CodeRange')
+    nl = px.const('Regexps', 'nl_code')
+    ps = params(fn)
+
+    def cr(a, b):
+        env = px.env_consts('Regexps', fn)
+        env.update({ps[0]: a, ps[1]: b, 'RawNewline': ('NL',)})
+        outs = Mini(ctors=('Alt', 'RawCodeRange', 'Seq')).block(fn.body, env)
+        v = _agree(outs, lambda e, sig: sig)
+        if not (isinstance(v, tuple) and v[0] == 'return') or v[1] is UNK:
+            raise Unmodelled('CodeRange(%d, %d) result not determined' % (a, b))
+        return v[1]
+
+    def covered(term):
+        """-> (set of plain codes, uses RawNewline)"""
+        if term == ('NL',):
+            return set(), True
+        if isinstance(term, tuple) and term and term[0] == 'RawCodeRange' and len(term) == 3:
+            return set(range(term[1], term[2])), False
+        if isinstance(term, tuple) and term and term[0] == 'Alt':
+            cs, n = set(), False
+            for t in term[1:]:
+                c2, n2 = covered(t)
+                cs |= c2
+                n = n or n2
+            return cs, n
+        raise Unmodelled('CodeRange builds %r' % (term,))
+
+    def check_cr():
+        bad = []
+        for a, b in ((nl - 5, nl + 10), (nl, nl + 1), (nl - 5, nl), (nl, nl + 10), (nl + 1, nl + 10), (nl - 5, nl + 1)):
+            cs, n = covered(cr(a, b))
+            want = set(range(a, b)) - {nl}
+            if cs != want or n != (a <= nl < b):
+                bad.append(((a, b), sorted(cs), n))
+        return bad
+    bad = _model('Regexps.CodeRange', check_cr)
+    r.inst('Regexps.CodeRange:newline', sample='CodeRange splits ranges containing code %d into [a, nl) + RawNewline + (nl, b)' % nl)
+    for (a, b), cs, n in bad:
+        r.violate('Regexps.CodeRange:newline', rel, fn.lineno,
+                  'CodeRange(%d, %d) covers plain codes %s and %s RawNewline; code %d (newline) must be matched by RawNewline only (it is preceded by the EOL marker) '
+                  'and every other code of the range by a RawCodeRange' % (a, b, cs, 'uses' if n else 'does not use', nl))
+        break
+    return r
+
+
+def px_mro_attrs(px, c):
+    """(attr, value) of class-level nullable/match_nl along the single-inheritance chain inside Regexps"""
+    out = []
+    seen = 0
+    while c is not None and seen < 6:
+        seen += 1
+        for s in c.body:
+            if isinstance(s, ast.Assign) and isinstance(s.targets[0], ast.Name) and s.targets[0].id in ('nullable', 'match_nl') and isinstance(s.value, ast.Constant):
+                out.append((s.targets[0].id, s.value.value))
+        b = c.bases[0].id if c.bases and isinstance(c.bases[0], ast.Name) else None
+        c = next((k for k in px.trees['Regexps'].body if isinstance(k, ast.ClassDef) and k.name == b), None) if b else None
+    return out
